@@ -119,6 +119,17 @@ def build(doc, how):
         cls = registry.class_for_type(doc["type"], "2.1", "observables")
         kw = {k: v for k, v in doc.items() if k != "type"}
         return core.guarded(cls, allow_custom=True, id=None, **kw)
+    if how == "constructor-tuples":
+        # every JSON array handed over as a Python tuple (the constructors take any sequence): the same value, so the same id
+        def tup(v):
+            if isinstance(v, list):
+                return tuple(tup(x) for x in v)
+            if isinstance(v, dict):
+                return {k: tup(x) for k, x in v.items()}
+            return v
+        cls = registry.class_for_type(doc["type"], "2.1", "observables")
+        kw = {k: tup(v) for k, v in doc.items() if k != "type"}
+        return core.guarded(cls, allow_custom=True, **kw)
     if how == "parse-id-null":
         return core.guarded(stix2.parse, dict(doc, id=None), allow_custom=True, version="2.1")
     if how.startswith("constructor-stixdt:"):
@@ -234,7 +245,7 @@ def check_case(case):
 
 # ---- strategies --------------------------------------------------------------------------------------------------
 OPTS = {"ts_max_digits": 6, "selectors": "none", "max_optional": 7}
-ROUTES = ["parse-text", "parse_observable", "constructor", "observed-data-member", "constructor-id-none", "parse-id-null"]
+ROUTES = ["parse-text", "parse_observable", "constructor", "observed-data-member", "constructor-id-none", "parse-id-null", "constructor-tuples"]
 STIXDT_ROUTES = ["constructor-stixdt:millisecond/min", "constructor-stixdt:millisecond/exact", "constructor-stixdt:second/exact", "constructor-stixdt:second/min"]
 # member names on which UTF-16 code-unit order (RFC 8785) and code-point order disagree, plus escapes
 ORDER_KEYS = ["\ue000", "\U0001f600\ue000", "\ufb33", "\U0001f600", "\uffff", "\U00010000", "a", "\u00e9", "\"q", "\\", "\u0001", "\ud7ff", "Z"]
